@@ -196,6 +196,7 @@ def exprarray_case(c):
 FAMILIES = {"exprarray": exprarray_case, "scalar": scalar_case, "array": array_case, "ragged": ragged_case, "index": index_case, "whole": whole_array_param_case}
 
 
+@common.guarded("C05")
 def _case(c):
     return FAMILIES[c[0]](c[1])
 
